@@ -365,3 +365,22 @@ PROPS["C16"] = {
         lane("TestPipeline", "pipeline", 200, 1200, shards=16, must_classes=["service", "entity", "path-parameter"]),
     ],
 }
+
+PROPS["C17"] = {
+    "pkg": "c17",
+    "level": "exploration",
+    "technique": "property-based testing (rapid) over generated entity declarations; reference-model predicates derived from the statement, evaluated on the compiled descriptors and on the derived client API",
+    "level_text": ("Entity declarations with 1-4 keys of mixed primary / foreign / tenant / shard flags, 0-5 data fields of any type, 1-5 statuses, 0-4 events with fields, 0-2 "
+                   "command services, 0-2 summaries and optional query settings are compiled; the expected component set is computed from the declaration alone: Keys / Data / "
+                   "State / EventType / Event messages and the Status enum exist under the entity's name; Keys lists the keys in order with primary keys required; statuses are "
+                   "numbered in order after <E>_STATUS_UNSPECIFIED; State = metadata + flattened keys + data + status and Event = metadata + flattened keys + event oneof, all "
+                   "required; the event oneof has exactly one option per event pointing at the nested message of that name; the query service has Get / List / Events (GET) "
+                   "whose path parameters are the primary (and shard) keys in declaration order; one command service per command, one event topic, one upsert topic per "
+                   "summary; every part carries the same entity annotation. The client API must group them into a StateEntity with the declared primary key, events and command services."),
+    "level_note": "Sampled. Exact names are asserted for the generator's vocabulary only.",
+    "rule": ("entity: j5sgen.Draw(EntityOnly) with 1-2 files each holding an entity. Non-trivial: >=2 keys with different flag combinations, or >=1 event and >=1 summary. Distinct by hash of the sources."),
+    "assumptions": ["README entity section; the statement of C17"],
+    "lanes": [
+        lane("TestEntity", "entity", 200, 1200, shards=16, must_classes=["shard-key", "foreign-key", "tenant-key", "events:0", "summaries:2", "commands:2"]),
+    ],
+}
